@@ -81,21 +81,22 @@ fn level_of(property: &str) -> &'static str {
 fn default_runs(property: &str, tier: &str) -> u64 {
     // sized so that a quick check simulates for roughly 5-15 s on 16 cores
     let quick = match property {
-        "C01" | "C02" | "C03" | "C04" | "C05" | "C07" | "C12" => 200_000,
-        "C06" => 60_000,
-        "C08" => 30_000,
-        "C13" => 50_000,
-        "C16" => 100_000,
-        "C09" => 15_000,
-        "C10" => 20_000,
-        "C11" => 15_000,
-        "C17" => 150_000,
+        "C01" | "C02" | "C03" | "C04" | "C05" | "C07" => 300_000,
+        "C12" => 400_000,
+        "C06" => 300_000,
+        "C08" => 200_000,
+        "C13" => 200_000,
+        "C16" => 300_000,
+        "C17" => 300_000,
+        "C09" => 40_000,
+        "C10" => 60_000,
+        "C11" => 40_000,
         "C18" => 15_000,
-        "C19" => 6_000,
+        "C19" => 20_000,
         _ => 40_000,
     };
     if tier == "thorough" {
-        quick * 30
+        quick * 20
     } else {
         quick
     }
